@@ -1,14 +1,65 @@
 package main
 
 import (
+	"embed"
 	"fmt"
+	"go/parser"
+	"go/token"
 	"os"
 	"path/filepath"
-	"regexp"
-	"strings"
 
 	"nvharness/lib/gofacts"
 )
+
+// The extractor compares the WHOLE canonical text (gofacts.Canon: locals renamed, white space collapsed) of every
+// function of the anchored files with the two shapes the model is written against: `legacy` (the tree before the
+// repairs) and `repaired`. A body that is neither is `unknown` — an inserted statement, a reassigned variable or a
+// changed loop bound is therefore a broken tie, never a silently accepted variant.
+//
+//go:embed shapes/legacy/*.go.txt shapes/repaired/*.go.txt
+var shapeFS embed.FS
+
+var anchored = []string{"jsi64", "jsu64", "jsbyte", "jstime", "timestamp", "duration", "base64", "hex"}
+
+func loadShape(kind, name string) *gofacts.File {
+	src, err := shapeFS.ReadFile("shapes/" + kind + "/" + name + ".go.txt")
+	if err != nil {
+		fmt.Fprintln(os.Stderr, "extract:", err)
+		os.Exit(2)
+	}
+	fset := token.NewFileSet()
+	f, err := parser.ParseFile(fset, name+".go", src, parser.SkipObjectResolution)
+	if err != nil {
+		fmt.Fprintln(os.Stderr, "extract:", err)
+		os.Exit(2)
+	}
+	return &gofacts.File{Fset: fset, AST: f}
+}
+
+type shapes struct {
+	repo, legacy, repaired map[string]*gofacts.File
+}
+
+// shapeOf: "legacy", "repaired", "both" (the function is the same in the two snapshots) or "unknown".
+func (s *shapes) shapeOf(file, recv, name string) string {
+	got := s.repo[file].Canon(s.repo[file].Func(recv, name))
+	if got == "" {
+		return "unknown"
+	}
+	l := s.legacy[file].Canon(s.legacy[file].Func(recv, name))
+	r := s.repaired[file].Canon(s.repaired[file].Func(recv, name))
+	switch {
+	case got == l && got == r:
+		return "both"
+	case got == l:
+		return "legacy"
+	case got == r:
+		return "repaired"
+	}
+	return "unknown"
+}
+
+func known(sh string) bool { return sh != "unknown" }
 
 // wrapFact is the regenerated description of one UnmarshalJSON (Nv.C20.Wrap).
 type wrapFact struct {
@@ -22,219 +73,82 @@ func (w wrapFact) lean() string {
 	return fmt.Sprintf("⟨.%s, %d, %s, .%s⟩", w.kind, w.minLen, gofacts.LeanBool(w.emptyZero), w.parser)
 }
 
-var (
-	reLenVar = regexp.MustCompile(`(?:var )?(\w+) :?= len\(b\)`)
-	// a parse call, with at most one level of nested parentheses in its arguments
-	reCalls = regexp.MustCompile(`strconv\.\w+\((?:[^()]|\([^()]*\))*\)|time\.ParseDuration\((?:[^()]|\([^()]*\))*\)|\bi\.FromString\((?:[^()]|\([^()]*\))*\)`)
-)
-
-// classifyUnmarshal reads the normalised body of an UnmarshalJSON method.
-func classifyUnmarshal(body string) wrapFact {
-	w := wrapFact{kind: "unknown", parser: "unknown"}
-	if body == "" {
-		return w
+// wrapOf: what the model knows about the two shapes of each wrapper's UnmarshalJSON.
+func wrapOf(shape string, minLen int, parser string) wrapFact {
+	switch shape {
+	case "legacy":
+		return wrapFact{"unconditional", minLen, false, parser}
+	case "repaired":
+		return wrapFact{"checkedOnly", minLen, false, parser}
 	}
-	m := reLenVar.FindStringSubmatch(body)
-	if m == nil {
-		return w
-	}
-	L := regexp.QuoteMeta(m[1])
-	// length guard: the first `if L …` statement, returning an error
-	switch {
-	case regexp.MustCompile(`if ` + L + ` == 0 \{ return Err\w+ \}`).MatchString(body):
-		w.minLen = 1
-	default:
-		if g := regexp.MustCompile(`if ` + L + ` (<|<=) (\d+) \{ return Err\w+ \}`).FindStringSubmatch(body); g != nil {
-			n := 0
-			fmt.Sscanf(g[2], "%d", &n)
-			if g[1] == "<=" {
-				n++
-			}
-			w.minLen = n
-		}
-	}
-	slice := "b[1 : " + m[1] + "-1]"
-	hasSlice := strings.Contains(body, slice)
-	posCheck := "if b[0] == '\"' && b[" + m[1] + "-1] == '\"' {"
-	negCheck := regexp.MustCompile(`if b\[0\] != '"' \|\| b\[` + L + `-1\] != '"' \{ return Err\w+ \}`)
-	negBare := regexp.MustCompile(`if b\[0\] != '"' \|\| b\[` + L + `-1\] != '"' \{ (?:[^{}]|\{[^{}]*\})*string\(b\)(?:[^{}]|\{[^{}]*\})*return nil \}`)
-	mentionsB0 := strings.Contains(body, "b[0]")
-	switch {
-	case !hasSlice:
-		w.kind = "unknown"
-	case !mentionsB0:
-		w.kind = "unconditional"
-	case strings.Contains(body, posCheck) && strings.Index(body, posCheck) < strings.Index(body, slice) &&
-		strings.Contains(gofacts.After(body, slice), "string(b)"):
-		w.kind = "checkedBare"
-	case negCheck.MatchString(body) && negCheck.FindStringIndex(body)[0] < strings.Index(body, slice):
-		w.kind = "checkedOnly"
-	case negBare.MatchString(body) && negBare.FindStringIndex(body)[0] < strings.Index(body, slice):
-		w.kind = "checkedBare" // `if not quoted { parse string(b); …; return nil }` then strip
-	}
-	w.emptyZero = regexp.MustCompile(`if (\w+ == ""|len\(\w+\) == 0) \{ \*i = 0 return nil \}`).MatchString(body)
-	// every parse call must be of one recognised kind, applied to the stripped text or to the whole token
-	argOK := map[string]bool{"string(" + slice + ")": true, "string(b)": true}
-	for _, a := range regexp.MustCompile(`(?:var )?(\w+) :?= string\(b(?:\[1 : `+L+`-1\])?\)`).FindAllStringSubmatch(body, -1) {
-		argOK[a[1]] = true
-	}
-	kinds := map[string]bool{}
-	for _, c := range reCalls.FindAllString(body, -1) {
-		open := strings.IndexByte(c, '(')
-		fn, args := c[:open], c[open+1:len(c)-1]
-		first := args
-		rest := ""
-		if depth, cut := 0, -1; true {
-			for i, ch := range args {
-				if ch == '(' {
-					depth++
-				} else if ch == ')' {
-					depth--
-				} else if ch == ',' && depth == 0 {
-					cut = i
-					break
-				}
-			}
-			if cut >= 0 {
-				first, rest = args[:cut], strings.TrimSpace(args[cut+1:])
-			}
-		}
-		switch {
-		case !argOK[first]:
-			kinds["unknown"] = true
-		case fn == "strconv.Atoi" && rest == "":
-			kinds["atoi"] = true
-		case fn == "strconv.ParseInt" && rest == "10, 64":
-			kinds["atoi"] = true // same function on a 64-bit platform
-		case fn == "strconv.ParseUint" && rest == "10, 64":
-			kinds["parseUint64"] = true
-		case fn == "time.ParseDuration" && rest == "":
-			kinds["parseDuration"] = true
-		case fn == "i.FromString" && rest == "":
-			kinds["fromString"] = true
-		default:
-			kinds["unknown"] = true
-		}
-	}
-	if len(kinds) == 1 {
-		for k := range kinds {
-			w.parser = k
-		}
-	}
-	return w
-}
-
-// classifyByteConv reads FromString: how an element value becomes a byte.
-func classifyByteConv(body string) string {
-	if !strings.Contains(body, "(*i)[j] = byte(t)") {
-		return "unknown"
-	}
-	cmp := regexp.MustCompile(`if [^{}]*\bt\b[^{}]*\{`).FindAllString(body, -1)
-	rng := regexp.MustCompile(`if t < 0 \|\| t > (255|0xff|0xFF|math\.MaxUint8) \{ return [^{}]*\}`)
-	switch {
-	case len(cmp) == 0:
-		return "wrap"
-	case len(cmp) == 1 && rng.MatchString(body) && rng.FindStringIndex(body)[0] < strings.Index(body, "(*i)[j] = byte(t)"):
-		return "rangeChecked"
-	}
-	return "unknown"
+	return wrapFact{kind: "unknown", parser: "unknown"}
 }
 
 func extract(repo, leanDir string) {
-	load := func(rel string) *gofacts.File { return gofacts.MustLoad(repo, rel) }
-	i64 := load("tex/jsi64.go")
-	u64 := load("tex/jsu64.go")
-	jb := load("tex/jsbyte.go")
-	jt := load("tex/jstime.go")
-	ts := load("tex/timestamp.go")
-	du := load("tex/duration.go")
-	b64 := load("tex/base64.go")
-	hx := load("tex/hex.go")
-
-	wI := classifyUnmarshal(i64.Body("JsInt64", "UnmarshalJSON"))
-	wU := classifyUnmarshal(u64.Body("JsUInt64", "UnmarshalJSON"))
-	wB := classifyUnmarshal(jb.Body("JsByte", "UnmarshalJSON"))
-	wT := classifyUnmarshal(jt.Body("JsUnixTime", "UnmarshalJSON"))
-	wN := classifyUnmarshal(jt.Body("JsNanoTime", "UnmarshalJSON"))
-	wS := classifyUnmarshal(ts.Body("UnixStamp", "UnmarshalJSON"))
-	wD := classifyUnmarshal(du.Body("Duration", "UnmarshalJSON"))
-	fromString := jb.Body("JsByte", "FromString")
-	conv := classifyByteConv(fromString)
-
-	quoteTail := "newBuf = append(newBuf, '\"') newBuf = append(newBuf, buf...) newBuf = append(newBuf, '\"') return newBuf, nil"
-	marsh := func(f *gofacts.File, recv, expr string) bool {
-		b := f.Body(recv, "MarshalJSON")
-		return gofacts.Has(b, "buf := []byte("+expr+")") && gofacts.Has(b, quoteTail)
+	s := &shapes{map[string]*gofacts.File{}, map[string]*gofacts.File{}, map[string]*gofacts.File{}}
+	for _, n := range anchored {
+		s.repo[n] = gofacts.MustLoad(repo, "tex/"+n+".go")
+		s.legacy[n] = loadShape("legacy", n)
+		s.repaired[n] = loadShape("repaired", n)
 	}
-	marshalQuotedDecimal := marsh(i64, "JsInt64", "strconv.FormatInt(int64(i), 10)") &&
-		marsh(u64, "JsUInt64", "strconv.FormatUint(uint64(i), 10)") &&
-		marsh(jt, "JsUnixTime", "strconv.FormatInt(time.Time(i).Unix(), 10)") &&
-		marsh(jt, "JsNanoTime", "strconv.FormatInt(time.Time(i).UnixNano(), 10)") &&
-		marsh(ts, "UnixStamp", "strconv.FormatInt(int64(i), 10)") &&
-		gofacts.Has(jt.Body("JsUnixTime", "UnmarshalJSON"), "*i = JsUnixTime(time.Unix(int64(t), 0).Local())") &&
-		gofacts.Has(jt.Body("JsNanoTime", "UnmarshalJSON"), "*i = JsNanoTime(time.Unix(0, int64(t)).Local())") &&
-		gofacts.Has(ts.Body("UnixStamp", "UnmarshalJSON"), "*i = UnixStamp(t)") &&
-		gofacts.Has(i64.Body("JsInt64", "UnmarshalJSON"), "*i = JsInt64(t)") &&
-		gofacts.Has(u64.Body("JsUInt64", "UnmarshalJSON"), "*i = JsUInt64(t)")
-	dm := du.Body("Duration", "MarshalJSON")
-	durMarshal := gofacts.Has(dm, "var ii = (time.Duration)(i) var bytes = []byte(ii.String())") &&
-		gofacts.Has(dm, "out = append(out, '\"') out = append(out, bytes...) out = append(out, '\"') return out, nil") &&
-		gofacts.Has(du.Body("Duration", "UnmarshalJSON"), "*i = (Duration)(dur)")
-	bm := jb.Body("JsByte", "MarshalJSON")
-	byteMarshal := gofacts.Has(bm, "buf := i.ToJS()") && gofacts.Has(bm, quoteTail) &&
-		gofacts.Has(jb.Body("JsByte", "ToJS"), "var builder = i.splitBuilder() return builder.Bytes()") &&
-		gofacts.Has(jb.Body("JsByte", "splitBuilder"), `for j := 0; j < size; j++ { _, _ = builder.WriteString(strconv.Itoa(int(i[j]))) if j != size-1 { _, _ = builder.WriteString("/") } }`)
-	byteSplit := gofacts.Has(fromString, `if len(strBuf) == 0 { *i = nil return nil }`) &&
-		gofacts.Has(fromString, `var strNums = strings.Split(strBuf, "/")`) &&
-		gofacts.Has(fromString, `t, err := strconv.Atoi(strNums[j]) if err != nil { return err }`) &&
-		gofacts.Before(fromString, "*i = make(JsByte, size)", "strconv.Atoi(strNums[j])")
-	hexOne := func(name, call string) bool { return gofacts.Has(hx.Body("", name), "return "+call) }
-	hexBases := hexOne("I64Hex", "strconv.FormatInt(i, 16)") && hexOne("U64Hex", "strconv.FormatUint(u, 16)") &&
-		hexOne("I64HexV2", "strconv.FormatInt(i, 32)") && hexOne("U64HexV2", "strconv.FormatUint(u, 32)") &&
-		hexOne("HexI64", "strconv.ParseInt(s, 16, 64)") && hexOne("HexU64", "strconv.ParseUint(s, 16, 64)") &&
-		hexOne("HexI64V2", "strconv.ParseInt(s, 32, 64)") && hexOne("HexU64V2", "strconv.ParseUint(s, 32, 64)")
-	base64Raw := gofacts.Has(b64.Body("Base64Bytes", "Scan"), "base64.RawStdEncoding.DecodeString(ds)") &&
-		gofacts.Has(b64.Body("Base64Bytes", "Value"), "return base64.RawStdEncoding.EncodeToString(i), nil") &&
-		gofacts.Has(b64.Body("Base64Bytes", "Scan"), "case []byte: ds = string(v) case string: ds = v default: return fmt.Errorf(")
-	// how the SQL scanners turn the dynamic value into an integer / a stamp
-	legacySwitch := "var ts int64 switch v := value.(type) { case int32: ts = int64(v) case uint32: ts = int64(v) case int64: ts = v case uint64: ts = int64(v) case int: ts = int64(v) case uint: ts = int64(v) }"
-	strictCall := "var ts, err = scanInt64(value) if err != nil { return err }"
-	strictHelper := gofacts.Norm(`{ switch v := value.(type) { case nil: return 0, nil case int32: return int64(v), nil case uint32: return int64(v), nil case int64: return v, nil
-		case uint64: if v > math.MaxInt64 { return 0, fmt.Errorf("scan.value.out.of.range:%d", v) } return int64(v), nil case int: return int64(v), nil
-		case uint: if uint64(v) > math.MaxInt64 { return 0, fmt.Errorf("scan.value.out.of.range:%d", v) } return int64(v), nil
-		case []byte: return strconv.ParseInt(string(v), 10, 64) case string: return strconv.ParseInt(v, 10, 64) } return 0, fmt.Errorf("unsupported.scan.type:%T", value) }`)
-	nanoScan, unixScan := ts.Body("UnixNano2Time", "Scan"), ts.Body("Unix2Time", "Scan")
-	nanoTail, unixTail := " *s = UnixNano2Time(time.Unix(0, ts)) return nil }", " *s = Unix2Time(time.Unix(ts, 0)) return nil }"
+	sh := s.shapeOf
+
+	// JsInt64.UnmarshalJSON has one shape (checks its quotes, parses a bare token as it is, `""` is 0)
+	wI := wrapFact{kind: "unknown", parser: "unknown"}
+	if known(sh("jsi64", "JsInt64", "UnmarshalJSON")) {
+		wI = wrapFact{"checkedBare", 1, true, "atoi"}
+	}
+	wU := wrapOf(sh("jsu64", "JsUInt64", "UnmarshalJSON"), 3, "parseUint64")
+	wB := wrapOf(sh("jsbyte", "JsByte", "UnmarshalJSON"), 2, "fromString")
+	wT := wrapOf(sh("jstime", "JsUnixTime", "UnmarshalJSON"), 3, "atoi")
+	wN := wrapOf(sh("jstime", "JsNanoTime", "UnmarshalJSON"), 3, "atoi")
+	wS := wrapOf(sh("timestamp", "UnixStamp", "UnmarshalJSON"), 3, "atoi")
+	wD := wrapOf(sh("duration", "Duration", "UnmarshalJSON"), 3, "parseDuration")
+
+	fromString := sh("jsbyte", "JsByte", "FromString")
+	conv := map[string]string{"legacy": "wrap", "repaired": "rangeChecked"}[fromString]
+	if conv == "" {
+		conv = "unknown"
+	}
+
 	scanShape := "unknown"
+	nano, unix := sh("timestamp", "UnixNano2Time", "Scan"), sh("timestamp", "Unix2Time", "Scan")
 	switch {
-	case nanoScan == "{ "+legacySwitch+nanoTail && unixScan == "{ "+legacySwitch+unixTail:
+	case nano == "legacy" && unix == "legacy":
 		scanShape = "legacy"
-	case nanoScan == "{ "+strictCall+nanoTail && unixScan == "{ "+strictCall+unixTail && ts.Body("", "scanInt64") == strictHelper:
+	case nano == "repaired" && unix == "repaired" && sh("timestamp", "", "scanInt64") == "repaired":
 		scanShape = "strict"
 	}
 	stampShape := "unknown"
-	stampBody := func(recv, shape string) bool {
-		b := ts.Body(recv, "Scan")
-		switch shape {
-		case "legacy":
-			return b == gofacts.Norm("{ var t, ok = value.(time.Time) if ok { *i = "+recv+"(t.Unix()) } return nil }")
-		default:
-			return b == gofacts.Norm("{ switch t := value.(type) { case nil: case time.Time: *i = "+recv+`(t.Unix()) default: return fmt.Errorf("unsupported.scan.type:%T", value) } return nil }`)
-		}
+	st, t2u := sh("timestamp", "UnixStamp", "Scan"), sh("timestamp", "SQLTime2Unix", "Scan")
+	switch {
+	case st == "legacy" && t2u == "legacy":
+		stampShape = "legacy"
+	case st == "repaired" && t2u == "repaired":
+		stampShape = "strict"
 	}
-	for _, sh := range []string{"legacy", "strict"} {
-		if stampBody("UnixStamp", sh) && stampBody("SQLTime2Unix", sh) {
-			stampShape = sh
+
+	all := func(fs ...string) bool {
+		for _, f := range fs {
+			if !known(f) {
+				return false
+			}
 		}
+		return true
 	}
-	sqlScanValue := strings.HasSuffix(nanoScan, nanoTail) && strings.HasSuffix(unixScan, unixTail) &&
-		gofacts.Has(ts.Body("UnixNano2Time", "Value"), "return time.Time(s).UnixNano(), nil") &&
-		gofacts.Has(ts.Body("Unix2Time", "Value"), "return time.Time(s).Unix(), nil") &&
-		ts.Body("UnixStamp", "Value") == "{ return time.Unix(int64(i), 0), nil }" &&
-		ts.Body("SQLTime2Unix", "Value") == "{ return time.Unix(int64(i), 0), nil }"
-	durToml := du.Body("Duration", "UnmarshalTOML") == gofacts.Norm("{ var s, ok = v.(string) if !ok { return ErrInvalidDuration } var dur, err = time.ParseDuration(s) if err != nil { return err } *i = (Duration)(dur) return nil }")
-	durGetter := du.Body("Duration", "Duration") == "{ return time.Duration(i) }"
-	byteToString := jb.Body("JsByte", "ToString") == gofacts.Norm("{ var builder = i.splitBuilder() return builder.String() }")
+	marshalQuotedDecimal := all(sh("jsi64", "JsInt64", "MarshalJSON"), sh("jsu64", "JsUInt64", "MarshalJSON"),
+		sh("jstime", "JsUnixTime", "MarshalJSON"), sh("jstime", "JsNanoTime", "MarshalJSON"), sh("timestamp", "UnixStamp", "MarshalJSON"))
+	durMarshal := all(sh("duration", "Duration", "MarshalJSON"))
+	byteMarshal := all(sh("jsbyte", "JsByte", "MarshalJSON"), sh("jsbyte", "JsByte", "ToJS"), sh("jsbyte", "JsByte", "splitBuilder"))
+	byteSplit := known(fromString)
+	hexBases := all(sh("hex", "", "I64Hex"), sh("hex", "", "U64Hex"), sh("hex", "", "I64HexV2"), sh("hex", "", "U64HexV2"),
+		sh("hex", "", "HexI64"), sh("hex", "", "HexU64"), sh("hex", "", "HexI64V2"), sh("hex", "", "HexU64V2"))
+	base64Raw := all(sh("base64", "Base64Bytes", "Scan"), sh("base64", "Base64Bytes", "Value"))
+	sqlScanValue := all(sh("timestamp", "UnixNano2Time", "Value"), sh("timestamp", "Unix2Time", "Value"),
+		sh("timestamp", "UnixStamp", "Value"), sh("timestamp", "SQLTime2Unix", "Value"), nano, unix, st, t2u)
+	durToml := all(sh("duration", "Duration", "UnmarshalTOML"))
+	durGetter := all(sh("duration", "Duration", "Duration"))
+	byteToString := all(sh("jsbyte", "JsByte", "ToString"))
 
 	lb := gofacts.LeanBool
 	out := fmt.Sprintf(`import Nv.Model.C20
@@ -253,7 +167,7 @@ end Nv.Gen.C20
 		fmt.Fprintln(os.Stderr, err)
 		os.Exit(2)
 	}
-	fmt.Printf("extract C20: scanInt=%s scanStamp=%s byteConv=%s facts=%v,%v,%v,%v,%v,%v,%v,%v,%v,%v i64=%v u64=%v byte=%v unixTime=%v nanoTime=%v stamp=%v dur=%v\n",
+	fmt.Printf("extract C20 (whole-body shapes): scanInt=%s scanStamp=%s byteConv=%s facts=%v,%v,%v,%v,%v,%v,%v,%v,%v,%v i64=%v u64=%v byte=%v unixTime=%v nanoTime=%v stamp=%v dur=%v\n",
 		scanShape, stampShape, conv, marshalQuotedDecimal, durMarshal, byteMarshal, byteSplit, hexBases, base64Raw, sqlScanValue, durToml, durGetter, byteToString,
 		wI, wU, wB, wT, wN, wS, wD)
 }
